@@ -457,6 +457,7 @@ package grpctunnel
 //@   ensures[C02,C13] @refuse  old(st.sentHeaders) ==> result != nil && count("call:sendHeadersLocked") == 0 && st.headers == old(st.headers) && st.sentHeaders
 //@   ensures[C13]     @sendiff count("call:sendHeadersLocked") == 1 <==> (send && !old(st.sentHeaders))
 //@   ensures[C02]     @kept    !send && !old(st.sentHeaders) && md == nil ==> st.headers == old(st.headers)
+//@   ensures[C02]     @copied  !old(st.sentHeaders) && md != nil ==> count("ext:Join") == 1
 //@   nopanic[C09]
 
 //@ func (*tunnelServerStream).SetHeader
@@ -470,7 +471,7 @@ package grpctunnel
 //@   at call Join#1
 //@     assert[C02] @joined len(arg0) == 2 && arg0[0] == old(st.trailers) && arg0[1] == md
 //@   ensures[C02] @refuse old(st.closed) ==> result != nil && st.trailers == old(st.trailers)
-//@   ensures[C02] @set    !old(st.closed) ==> result == nil
+//@   ensures[C02] @set    !old(st.closed) ==> result == nil && count("ext:Join") == 1
 //@   nopanic[C09]
 
 //@ func (*tunnelServerStream).SendMsg
@@ -547,6 +548,7 @@ package grpctunnel
 //@   at call Unmarshal#1
 //@     assert[C01,C16] @nofab rerr == nil && sameSlice(arg0, rdata)
 //@   ensures[C01,C16] @err rerr != nil ==> result == rerr && count("unmarshal") == 0
+//@   ensures[C01]     @decoded rerr == nil ==> count("unmarshal") == 1
 //@   locks st.readMu, st.svr.mu, st.writeMu
 //@   assigns st.halfClosed, cancel(st.cancel), rclosed(st.receiver)
 
@@ -587,6 +589,7 @@ package grpctunnel
 
 // Carrier frames: a received message is non-nil when the error is nil.
 //@ func (*tunnelServer).serve
+//@   ghost root context.Context = nil
 //@   ghost recvErr error = nil
 //@   ghost createErr error = nil
 //@   ghost createOK bool = true
@@ -599,6 +602,7 @@ package grpctunnel
 //@   at aftercall getStream#1
 //@     ghost getErr = result1
 //@   at call createStream#1
+//@     ghost root = arg1
 //@     assert[C04,C17] @rootctx arg1 == ctx
 //@     assert[C08]     @sameid  arg2 == in.StreamId
 //@   at call getStream#1
@@ -619,6 +623,7 @@ package grpctunnel
 //@     assert[C03,C08,C09] @unknownid result == getErr && getErr != nil
 //@   loop 1 invariant true
 //@   ensures[C04,C14] @rootcancelled cancelCalled(cancel)
+//@   ensures[C04,C14] @handlerroot   count("call:createStream") > 0 ==> cancelCalled(cancelOf(root))
 //@   locks s.mu, str.writeMu, str.svr.mu
 //@   assigns *
 //@   nopanic[C09]
@@ -953,6 +958,7 @@ package grpctunnel
 //@   at call Unmarshal#1
 //@     assert[C01,C16] @nofab rerr == nil && sameSlice(arg0, rdata)
 //@   ensures[C01,C16] @err rerr != nil ==> result == rerr && count("unmarshal") == 0
+//@   ensures[C01]     @decoded rerr == nil ==> count("unmarshal") == 1
 //@   locks st.readMu, st.ch.mu, st.metaMu
 //@   assigns st.done, cancel(st.cancel), rclosed(st.receiver), rcancelled(st.receiver), chan(st.doneSignal), chan(st.gotHeadersSignal), elems(st.trailersTargets)
 
@@ -1096,7 +1102,7 @@ package grpctunnel
 //@     assert[C14] @undo sendErr != nil && arg1 == str.streamID
 //@   at go#1
 //@     assert[C08,C14] @announced sendErr == nil && count("carrierSend") == 1
-//@   ensures[C08]     @oneframe count("carrierSend") <= 1
+//@   ensures[C08]     @oneframe count("carrierSend") <= 1 && (result1 == nil ==> count("carrierSend") == 1)
 //@   ensures[C14]     @watcher  (result1 == nil <==> count("go") == 1) && count("go") <= 1
 //@   ensures[C08,C14] @failed   result1 != nil ==> result0 == nil
 //@   locks c.streamCreation, c.mu
@@ -1384,7 +1390,10 @@ package grpctunnel
 
 //@ func (*pendingChannel).Start
 //@   requires ctx != nil
+//@   at call Get#1
+//@     assert[C11] @peerheader arg0 == respMD
 //@   at call newTunnelChannel#1
+//@     assert[C15] @wrapped stream is *threadSafeOpenTunnelClient && arg0 == stream
 //@     assert[C17] @reqmd arg1 == reqMD
 //@     assert[C11] @flag arg2 == (len(vals) > 0 && vals[0] == "on")
 //@   assigns *
@@ -1454,6 +1463,8 @@ package grpctunnel
 //@     ghost added = result
 //@   at aftercall serveTunnel#1
 //@     ghost serveErr = result
+//@   at call Get#1
+//@     assert[C11] @peerheader arg0 == respMD
 //@   at call serveTunnel#1
 //@     assert[C10] @registered added == nil && count("wg.Done") == 0
 //@     assert[C17] @tunnelmd arg1 == reqMD
@@ -1463,3 +1474,110 @@ package grpctunnel
 //@   ensures[C10] @notadded count("call:serveTunnel") == 0 ==> count("wg.Done") == 0 && !started
 //@   locks s.mu
 //@   assigns *
+
+// ---------------------------------------------------------------------------
+// flow_control.go: revision-zero receiver
+// ---------------------------------------------------------------------------
+
+//@ type noFlowControlReceiver
+//@   field ctx immutable
+//@   field ch immutable closedby ingestMu
+//@   field closed immutable signal
+//@   field doClose, ingestMu monitor
+//@   invariant[C09] ingestMu : @chanorder isClosed(ch) ==> isClosed(closed)
+//@   invariant wf : ch != nil && closed != nil && ch != closed
+
+//@ func (*noFlowControlReceiver).accept
+//@   assigns nothing
+//@   ensures[C06] @errors result == nil
+//@   ensures[C04,C09] @cancellable count("blocking") <= 3
+//@   nopanic[C09]
+
+// close(r.closed) must happen while ingestMu is NOT held: it is what wakes an
+// accept that is blocked on the full channel while holding that lock.
+//@ func (*noFlowControlReceiver).close$1
+//@   requires r != nil
+//@   at close#1
+//@     assert[C04,C09] @wakefirst !held(r.ingestMu)
+//@   at close#2
+//@     assert[C09] @underlock held(r.ingestMu)
+//@   assigns chan(r.closed), chan(r.ch)
+
+//@ func (*noFlowControlReceiver).dequeue
+//@   assigns nothing
+//@   nopanic[C09]
+
+// ---------------------------------------------------------------------------
+// tunnel_metadata.go (C17)
+// ---------------------------------------------------------------------------
+
+//@ func TunnelMetadataFromIncomingContext
+//@   requires ctx != nil
+//@   ensures[C17] @copied count("ext:Copy") == 1
+//@   assigns nothing
+
+//@ func TunnelMetadataFromOutgoingContext
+//@   requires ctx != nil
+//@   ensures[C17] @copied count("ext:Copy") == 1
+//@   assigns nothing
+
+//@ func TunnelChannelFromContext
+//@   requires ctx != nil
+//@   assigns nothing
+
+// ---------------------------------------------------------------------------
+// carrier-stream wrappers: every delegated call runs under the wrapper's mutex (C15)
+// ---------------------------------------------------------------------------
+
+//@ func (*threadSafeOpenTunnelClient).Send
+//@   at call Send#1
+//@     assert[C15] @serialised held(h.sendMu)
+//@ func (*threadSafeOpenTunnelClient).SendMsg
+//@   at call SendMsg#1
+//@     assert[C15] @serialised held(h.sendMu)
+//@ func (*threadSafeOpenTunnelClient).CloseSend
+//@   at call CloseSend#1
+//@     assert[C15] @serialised held(h.sendMu)
+//@ func (*threadSafeOpenTunnelClient).Recv
+//@   at call Recv#1
+//@     assert[C15] @serialised held(h.recvMu)
+//@ func (*threadSafeOpenTunnelClient).RecvMsg
+//@   at call RecvMsg#1
+//@     assert[C15] @serialised held(h.recvMu)
+//@ func (*threadSafeOpenReverseTunnelServer).Send
+//@   at call Send#1
+//@     assert[C15] @serialised held(h.sendMu)
+//@ func (*threadSafeOpenReverseTunnelServer).SendMsg
+//@   at call SendMsg#1
+//@     assert[C15] @serialised held(h.sendMu)
+//@ func (*threadSafeOpenReverseTunnelServer).Recv
+//@   at call Recv#1
+//@     assert[C15] @serialised held(h.recvMu)
+//@ func (*threadSafeOpenReverseTunnelServer).RecvMsg
+//@   at call RecvMsg#1
+//@     assert[C15] @serialised held(h.recvMu)
+//@ func (*threadSafeOpenTunnelServer).Send
+//@   at call Send#1
+//@     assert[C15] @serialised held(h.sendMu)
+//@ func (*threadSafeOpenTunnelServer).SendMsg
+//@   at call SendMsg#1
+//@     assert[C15] @serialised held(h.sendMu)
+//@ func (*threadSafeOpenTunnelServer).Recv
+//@   at call Recv#1
+//@     assert[C15] @serialised held(h.recvMu)
+//@ func (*threadSafeOpenTunnelServer).RecvMsg
+//@   at call RecvMsg#1
+//@     assert[C15] @serialised held(h.recvMu)
+//@ func (*threadSafeOpenReverseTunnelClient).CloseSend
+//@   at call CloseSend#1
+//@     assert[C15] @serialised held(h.sendMu)
+//@ func (*threadSafeOpenReverseTunnelClient).SendMsg
+//@   at call SendMsg#1
+//@     assert[C15] @serialised held(h.sendMu)
+//@ func (*threadSafeOpenReverseTunnelClient).Recv
+//@   at call Recv#1
+//@     assert[C15] @serialised held(h.recvMu)
+//@ func (*threadSafeOpenReverseTunnelClient).RecvMsg
+//@   at call RecvMsg#1
+//@     assert[C15] @serialised held(h.recvMu)
+
